@@ -26,7 +26,8 @@ pub const N_FMT: u8 = 8;
 pub enum HttpBeh {
     /// 200 + valid BPSV (document derived from `doc`, `rows` and the requested path)
     Answer { doc: u8, rows: u8, chunked: bool },
-    /// status line `code`; optional Retry-After; body is either a short text or a *valid* BPSV table
+    /// status line `code`; optional Retry-After (seconds; values from 1000 select one of the other
+    /// spellings of `retry_after_text`); body is either a short text or a *valid* BPSV table
     Status { code: u16, retry_after: Option<u16>, bpsv_body: bool },
     /// 200 + a body the BPSV parser rejects
     Malformed { kind: u8 },
@@ -358,6 +359,14 @@ async fn accept_loop(l: TcpListener, id: u8, beh: Arc<Mutex<AnyBeh>>, sh: Arc<Sh
     }
 }
 
+/// Value of the Retry-After header: seconds, or (from 1000) a spelling that is not an integer —
+/// the HTTP-date form (the other legal one, RFC 9110 10.2.3), a fraction, a negative number, a word,
+/// nothing, a hexadecimal number, a number with an unit.
+pub fn retry_after_text(n: u16) -> String {
+    const OTHER: [&str; 7] = ["Wed, 21 Oct 2037 07:28:00 GMT", "1.5", "-1", "soon", "", "0x1", "1s"];
+    if n >= 1000 { OTHER[usize::from(n - 1000) % OTHER.len()].to_string() } else { n.to_string() }
+}
+
 fn reason(code: u16) -> &'static str {
     match code {
         200 => "OK",
@@ -427,7 +436,7 @@ async fn handle_http(mut s: TcpStream, b: HttpBeh, id: u8, sh: Arc<Shared>) {
     let (resp, cut): (Vec<u8>, Option<usize>) = match b {
         HttpBeh::Answer { doc: d, rows, chunked } => (http_response(200, "", doc(d, rows, &tag).0.as_bytes(), chunked).0, None),
         HttpBeh::Status { code, retry_after, bpsv_body } => {
-            let extra = retry_after.map(|n| format!("Retry-After: {n}\r\n")).unwrap_or_default();
+            let extra = retry_after.map(|n| format!("Retry-After: {}\r\n", retry_after_text(n))).unwrap_or_default();
             let body = if bpsv_body { doc(99, 2, &tag).0.into_bytes() } else { format!("{code} {}\n", reason(code)).into_bytes() };
             (http_response(code, &extra, &body, false).0, None)
         }
